@@ -25,7 +25,7 @@ for s in $SCEN; do
   oks=$(grep -c "^ok $name" "$LOG")
   if [ $code != 0 ] || [ "$oks" != "$n" ]; then
     if grep -qE "error: Undefined Behavior|Data race|error: unsupported operation|panicked|memory leaked|error: abnormal" "$LOG"; then
-      seed=$(grep -oE "failing seed: [0-9]+|Trying seed: [0-9]+" "$LOG" | tail -1 | grep -oE "[0-9]+$")
+      seed=$(grep -oE "FAILING SEED: [0-9]+" "$LOG" | head -1 | grep -oE "[0-9]+$")
       R="$VERIF_DIR/replays/$ID-miri-$name-seed${seed:-x}.json"
       printf '{"property":"%s","engine":"miri","scenario":"%s","miri_seed":"%s","cmd":"cd /verif/miri && MIRIFLAGS=\\"-Zmiri-seed=%s -Zmiri-preemption-rate=0.1\\" cargo +nightly miri run --offline -- %s","log_tail":%s}\n' "$ID" "$name" "${seed:-?}" "${seed:-0}" "$name" "$(tail -25 "$LOG" | python3 -c 'import json,sys; print(json.dumps(sys.stdin.read()))')" > "$R"
       echo "violation: $ID Miri reports undefined behaviour / a data race / a panic in scenario $name (seed ${seed:-?}); see $LOG"
